@@ -36,11 +36,15 @@ def impl_table(path):
 
 
 def impl_parse(d, path):
+    """the decoder's lines; None for the DataStream assertion the model answers IAssert to; any other exception that escapes the
+    decoder is a result of its own (never the model's lines)"""
     from io_drawer.ilog import parse_ilog_data
     try:
         return parse_ilog_data(memoryview(bytes(d)), path)
     except AssertionError:
         return None
+    except Exception as e:  # noqa: BLE001
+        return ["<parse_ilog_data raised %s: %s>" % (type(e).__name__, str(e)[:200])]
 
 
 def impl_timestamp(t):
@@ -364,7 +368,10 @@ def check_entry(run, model, pat, fmt, params, pte, tag):
         run.unsupported += 1
         return
     e = PTETableEntry(pat, fmt, tuple(params), "f.cpp", 1)
-    got = dict(matches=e.matches(pte), message=e.get_message(pte))
+    try:
+        got = dict(matches=e.matches(pte), message=e.get_message(pte))
+    except Exception as ex:  # noqa: BLE001  (an escaping exception is a result of its own)
+        got = dict(matches=None, message="<raised %s: %s>" % (type(ex).__name__, str(ex)[:120]))
     r = dict(model.call("ilog_entry", pte.to_bytes(4, "big"), pat, fmt, bytes(params))[1])
     spec = dict(matches=spec_hits(pat, pte), message=spec_message(fmt, params, pte))
     rep = dict(fn="ilog_entry", pattern=pat, format=fmt, params=list(params), pte="%08X" % pte, actual=got, spec=spec, model=r)
